@@ -15,7 +15,7 @@ SPIN = ["ABTD_spinlock_acquire.0", "ABTD_spinlock_acquire.1", "ABTI_ythread_atom
 PRIMS = ["self_yield_to", "thread_yield_to", "self_suspend_to", "self_resume_yield_to", "self_resume_suspend_to", "self_exit_to", "self_resume_exit_to"]
 
 
-def obligations(tier):
+def own_obligations(tier):
     o = []
     for i, nm in enumerate(PRIMS):
         o.append(Obl("directed_" + nm, "C11/directed.c", "ABT_%s towards a symbolic target (same or other pool, started or not): the target runs next on the calling stream, RUNNING, out of its pool, parent inherited; the caller ends up READY-in-pool / BLOCKED-and-counted / TERMINATED as documented; blocked counters balanced%s" % (
@@ -26,6 +26,15 @@ def obligations(tier):
                               "ABTI_ythread_switch_to_sibling_internal", "ABTI_ythread_jump_to_sibling_internal"],
                      bounds="one directed switch between 2 ULTs", symbolic="target's pool (same/other), started or not, whether another stream pops it meanwhile", timeout=300))
     o += deepen([x for x in o if x.hooks], tier)
+    return o
+
+
+def obligations(tier):
+    o = own_obligations(tier)
+    import importlib as _il
+    C06 = _il.import_module("props.C06")
+    names = {x.name for x in o}
+    o += [x for x in C06.own_obligations(tier) if x.name.startswith("counter_") and x.name not in names]
     return o
 
 MANIFEST_ENTRY = {
